@@ -97,6 +97,32 @@ def rand_restrictions(rng):
     return dict((k, rng.choice(menu[k])) for k in keys)
 
 
+PIC = "(low_delay_picture | high_quality_picture | low_delay_picture_fragment | high_quality_picture_fragment)"
+PATTERNS = [
+    None, None, None,   # no ordering restriction
+    "sequence_header .* end_of_sequence",
+    "sequence_header auxiliary_data .* end_of_sequence",
+    "sequence_header .* padding_data end_of_sequence",
+    "sequence_header (padding_data | %s)* auxiliary_data end_of_sequence" % PIC,
+    "(sequence_header %s)* end_of_sequence" % PIC,                       # a header before every picture / fragment
+    "(sequence_header %s+)+ end_of_sequence" % PIC,                      # at least one picture
+    "sequence_header (auxiliary_data %s+)* end_of_sequence" % PIC,
+    "sequence_header %s* (padding_data padding_data)? end_of_sequence" % PIC,
+    "sequence_header ( (sequence_header | auxiliary_data | padding_data | low_delay_picture | high_quality_picture)* | (sequence_header | auxiliary_data | padding_data | low_delay_picture_fragment | high_quality_picture_fragment)*) end_of_sequence",
+]
+
+
+def rand_pattern_and_pictures(rng, cf):
+    """an ordering pattern and a picture list of 0-2 frames (an empty sequence is a legitimate input of make_sequence)"""
+    import codecgen as G
+
+    pattern = rng.choice(PATTERNS)
+    frames = rng.choice([0, 1, 1, 1, 2])
+    if frames == 0:
+        return pattern, []
+    return pattern, G.rand_pictures(rng, cf, n=frames)
+
+
 def rand_config(rng):
     import codecgen as G
     from vc2_conformance.codec_features import CodecFeatures
@@ -150,7 +176,7 @@ class Prop(object):
     lean_modules = ["VC2.Props.C16"]
     status = "partial"
     rule = ("synthetic single-column level tables (level 1 replaced in-process as the test suite does; 1-3 of 38 keys restricted: flags forced true/false, preset-only or custom-only indices, "
-            "restricted base formats, sizes, wavelets, depths, slice parameters, quantisation-matrix values, versions) x random small codec configurations: either the REAL encoder raises "
+            "restricted base formats, sizes, wavelets, depths, slice parameters, quantisation-matrix values, versions), each with one of twelve data-unit ORDERING PATTERNS (none; required auxiliary/padding units before, between or after the pictures; a header before every picture; at least one picture; the real levels' pattern) x random small codec configurations x 0-2 frames of pictures (an empty sequence included): either the REAL encoder raises "
             "an unsatisfiable-configuration error or the REAL validator accepts the serialised stream under the same table; plus the REAL level tables: the header the encoder chooses for every row; a rejection naming one of the recorded F8 keys is attributed "
             "to that finding, any other rejection is a violation; plus the real level tables via C03/C15")
     trusted = ["C17's constraint-table model and correspondence; the key inventories are regenerated from the sources each run (string-literal occurrence: an over-approximation of 'consulted')",
@@ -166,20 +192,21 @@ class Prop(object):
         ctx.corr_names.append("REAL encoder + validator under synthetic single-column level tables")
         for _ in range(ctx.n(700, 15000)):
             cf = rand_config(rng)
-            pics = G.rand_pictures(rng, cf, n=1)
-            restr = rand_restrictions(rng)
+            pattern, pics = rand_pattern_and_pictures(rng, cf)
+            restr = rand_restrictions(rng) if rng.random() < 0.8 else {}
             try:
-                out, detail = trial(cf, pics, restr)
+                out, detail = trial(cf, pics, restr, pattern)
             except Exception as e:  # noqa
                 out, detail = "violation", "exception %s: %s" % (type(e).__name__, str(e)[:160])
             ctx.evaluations += 1
             ctx.count("trial:%s" % out.split(":")[0])
+            ctx.count("pattern:%s:pictures:%d" % ("none" if pattern is None else "restricted", len(pics)))
             if out.startswith("known:"):
                 self._known.setdefault(out[6:], {"config": G.describe(cf), "restrictions": dict((k, [list(v) if isinstance(v, tuple) else v for v in vs]) for k, vs in restr.items())})
             if out != "encoder-refuses":
                 ctx.distinct.add(hash(json.dumps([G.describe(cf), sorted(restr)], sort_keys=True, default=str)))
             if out == "violation" and not self._bad:
-                self._bad = {"config": G.describe(cf), "pictures": pics,
+                self._bad = {"config": G.describe(cf), "pictures": pics, "pattern": pattern,
                              "restrictions": dict((k, [list(v) if isinstance(v, tuple) else v for v in vs]) for k, vs in restr.items()), "why": detail}
         self.real_levels(ctx)
 
@@ -264,14 +291,14 @@ class Prop(object):
         rng = ctx.rng("search")
         for _ in range(ctx.n(2000, 30000)):
             cf = rand_config(rng)
-            pics = G.rand_pictures(rng, cf, n=1)
-            restr = rand_restrictions(rng)
+            pattern, pics = rand_pattern_and_pictures(rng, cf)
+            restr = rand_restrictions(rng) if rng.random() < 0.8 else {}
             try:
-                out, detail = trial(cf, pics, restr)
+                out, detail = trial(cf, pics, restr, pattern)
             except Exception as e:  # noqa
                 continue
             if out == "violation":
-                return {"config": G.describe(cf), "pictures": pics,
+                return {"config": G.describe(cf), "pictures": pics, "pattern": pattern,
                         "restrictions": dict((k, [list(v) if isinstance(v, tuple) else v for v in vs]) for k, vs in restr.items()), "why": detail}
         return None
 
@@ -297,7 +324,7 @@ class Prop(object):
             return 1
         cf = CodecFeatures(G.from_description(fi["config"]), level=Levels(1))
         restr = dict((k, [tuple(v) if isinstance(v, list) else v for v in vs]) for k, vs in fi["restrictions"].items())
-        out, detail = trial(cf, fi["pictures"], restr)
+        out, detail = trial(cf, fi["pictures"], restr, fi.get("pattern"))
         print("replay ->", out, detail or "")
         return 1 if out == "violation" else 0
 
